@@ -24,6 +24,8 @@ def op_strategy(kind, none_p=True, bulk_empty=True, heavy=True, only=None):
     n = node_of(kind)
     n_or_none = st.one_of(n, n, n, n, n, n, n, n, st.none()) if none_p else n
     e = eid_ref
+    # for operations that only do something on an existing edge: mostly IDs that exist right now
+    ex = st.one_of(nets.eid_existing, nets.eid_existing, nets.eid_existing, eid_ref)
     e_or_none = st.one_of(e, e, e, e, e, e, e, e, st.none()) if none_p else e
     a = attrs()
     mem = members_of(kind, 0, 5, none_p)
@@ -33,17 +35,20 @@ def op_strategy(kind, none_p=True, bulk_empty=True, heavy=True, only=None):
     ct2 = st.sampled_from(["list", "tuple", "set", "frozenset", "iter"])  # one-shot iterators too: "an iterable of node IDs"
     outer = st.sampled_from(["list", "tuple", "gen"])
 
+    # an explicit ID in a bulk format may be None (one in fifteen): it must be refused like a None member
+    eb = st.one_of([e] * 14 + [st.none()]) if none_p else e
+
     def bulk(fmt):
         if fmt == 1:
             items = st.lists(st.tuples(mem1, ct2).map(list), max_size=3)
         elif fmt == 2:
-            items = st.lists(st.tuples(mem1, ct2, e).map(list), max_size=3)
+            items = st.lists(st.tuples(mem1, ct2, eb).map(list), max_size=3)
         elif fmt == 3:
             items = st.lists(st.tuples(mem1, ct2, a).map(list), max_size=3)
         elif fmt == 4:
-            items = st.lists(st.tuples(mem1, ct2, e, a).map(list), max_size=3)
+            items = st.lists(st.tuples(mem1, ct2, eb, a).map(list), max_size=3)
         else:
-            items = st.lists(st.tuples(e, mem1, ct2).map(list), max_size=3)
+            items = st.lists(st.tuples(eb, mem1, ct2).map(list), max_size=3)
         return st.tuples(st.just("add_edges_from"), st.just(fmt), items, a, outer).map(list)
 
     setattr_modes = lambda key: st.one_of(  # noqa: E731
@@ -68,14 +73,15 @@ def op_strategy(kind, none_p=True, bulk_empty=True, heavy=True, only=None):
         (2, "add_edges_from", bulk(4)),
         (2, "add_edges_from", bulk(5)),
         (1, "add_weighted_edges_from", st.tuples(st.just("add_weighted_edges_from"), st.lists(st.tuples(members_of(kind, 1, 3, none_p), st.sampled_from([0.5, 2, 3.0])).map(list), max_size=2), st.sampled_from(["weight", "w"]), a.map(lambda d: {k: v for k, v in d.items() if k != "weight"})).map(list)),
-        (2, "set_edge_attributes", setattr_modes(e).map(lambda t: ["set_edge_attributes"] + list(t))),
-        (3, "double_edge_swap", st.tuples(st.just("double_edge_swap"), nm, nm, e, e).map(list)),
-        (2, "random_edge_shuffle", st.tuples(st.just("random_edge_shuffle"), e, e, st.integers(0, 10**6)).map(list)),
+        (2, "set_edge_attributes", setattr_modes(ex).map(lambda t: ["set_edge_attributes"] + list(t))),
+        (3, "double_edge_swap", st.tuples(st.just("double_edge_swap"), nm, nm, ex, ex).map(list)),
+        (1, "double_edge_swap", st.tuples(st.just("double_edge_swap"), nm, st.just(["same"]), ex, ex).map(list)),  # one node named twice
+        (2, "random_edge_shuffle", st.tuples(st.just("random_edge_shuffle"), ex, ex, st.integers(0, 10**6)).map(list)),
         (1, "random_edge_shuffle", st.tuples(st.just("random_edge_shuffle"), st.none(), st.none(), st.integers(0, 10**6)).map(list)),
         (4, "add_node_to_edge", st.tuples(st.just("add_node_to_edge"), e_or_none, n_or_none).map(list)),
-        (3, "remove_edge", st.tuples(st.just("remove_edge"), e).map(list)),
+        (3, "remove_edge", st.tuples(st.just("remove_edge"), ex).map(list)),
         (4, "remove_edges_from", st.tuples(st.just("remove_edges_from"), nets.eid_removal_list).map(list)),
-        (4, "remove_node_from_edge", st.tuples(st.just("remove_node_from_edge"), e, nm, b).map(list)),
+        (4, "remove_node_from_edge", st.tuples(st.just("remove_node_from_edge"), ex, nm, b).map(list)),
         (1, "update", st.tuples(st.just("update"), st.one_of(st.none(), st.lists(members_of(kind, 1, 3, False), max_size=2)), st.one_of(st.none(), st.lists(n, max_size=2))).map(list)),
         (1, "set_net_attr", st.tuples(st.just("set_net_attr"), st.sampled_from(["name", "tag"]), nets.attr_value).map(list)),
         (5, "merge_duplicate_edges", st.tuples(st.just("merge_duplicate_edges"), st.sampled_from(["first", "tuple", "new"]), st.sampled_from(["first", "union", "intersection"]), st.sampled_from([None, "mult"])).map(list)),
@@ -103,7 +109,9 @@ def init_strategy(kind):
     return st.one_of(
         st.just(["empty"]),
         st.tuples(st.just("edgelist"), st.lists(mem, max_size=4)).map(list),
+        st.tuples(st.just("edgelist"), st.lists(mem, min_size=3, max_size=6)).map(list),  # start networks with several edges: most operations need two
         st.tuples(st.just("edgedict"), st.lists(st.tuples(eid_literal, mem).map(list), max_size=4, unique_by=lambda t: repr(t[0]))).map(list),
+        st.tuples(st.just("edgedict"), st.lists(st.tuples(eid_literal, mem).map(list), min_size=3, max_size=6, unique_by=lambda t: repr(t[0]))).map(list),
         st.tuples(st.just("df"), st.lists(st.tuples(n, eid_literal).map(list), max_size=6)).map(list),
         st.tuples(st.just("inc"), st.integers(1, 4), st.integers(1, 4), st.lists(st.integers(0, 1), min_size=16, max_size=16)).map(list),
         st.tuples(st.just("copyof"), st.lists(st.tuples(eid_literal, mem).map(list), max_size=3, unique_by=lambda t: repr(t[0]))).map(list),
@@ -195,7 +203,16 @@ def concretise(H, op):
             it[0] = r(it[0])
     elif name == "double_edge_swap":
         op[3], op[4] = r(op[3]), r(op[4])
-        op[1], op[2] = member_ref(H, op[3], op[1]), member_ref(H, op[4], op[2])
+        same = op[2] == ["same"]  # the same node named twice (picked among the common members of the two edges when there are any)
+        if same:
+            try:
+                common = sorted(set(H._edge[op[3]]) & set(H._edge[op[4]]), key=repr)
+            except Exception:  # noqa: BLE001
+                common = []
+            if common and isinstance(op[1], list):
+                op[1] = common[op[1][1] % len(common)]
+        op[1] = member_ref(H, op[3], op[1])
+        op[2] = op[1] if same else member_ref(H, op[4], op[2])
     elif name == "random_edge_shuffle":
         if op[1] is not None:
             op[1], op[2] = r(op[1]), r(op[2])
@@ -350,14 +367,16 @@ class Model:
         )
 
     # -- helpers
-    def add_edge(self, members, idx, attr, fresh):
+    def add_edge(self, members, idx, attr, fresh, explicit=False):
         """docs: explicit existing ID -> warn and skip (checked before the members);
-        None can never be a node -> refused; otherwise create missing nodes and the edge"""
+        None can never be a node or an edge ID -> refused; otherwise create missing nodes and the edge"""
         members = list(members)
         if idx is not None and idx in self.edges:
             return
         if None in members:
             raise Reject("None member")
+        if explicit and idx is None:
+            raise Reject("None as an explicit edge ID (bulk formats 2, 4, 5)")
         if idx is None:
             idx = fresh()
         for n in members:
@@ -435,7 +454,7 @@ class Model:
                     mem, idx, ea = it[1], it[0], {}
                 a = dict(attr)
                 a.update(ea)  # per-edge attrs take precedence over kwargs; kwargs apply to all edges
-                self.add_edge(mem, idx, a, fresh)
+                self.add_edge(mem, idx, a, fresh, explicit=fmt in (2, 4, 5))
         elif name == "add_weighted_edges_from":
             for mem, w in op[1]:
                 a = dict(op[3])
@@ -486,6 +505,14 @@ class Model:
             for e, (m, a) in self.edges.items():
                 groups.setdefault(frozenset(m), []).append(e)
             new, dups = [], []
+            # the library raises TypeError (mixed-type IDs cannot be ordered) before it changes anything; it may have drawn
+            # automatic IDs for earlier groups by then, so every comparison is made here before any automatic ID is asked for
+            for m, ids in groups.items():
+                if len(ids) > 1:
+                    if rule == "first":
+                        min(ids)
+                    if rename in ("first", "tuple"):
+                        sorted(ids)
             for m, ids in groups.items():
                 if len(ids) > 1:
                     dups += ids
